@@ -299,3 +299,27 @@ def rejection_inventory(ctx, rule):
         if total > want else ''), None, key='LOAD|%s|refusals' % rule)
     ctx.floor('error constructions found in the loader', total, 25)
     ctx.extra['error_constructions_by_function'] = got
+
+
+def arm_bypass(pf, entry, reg, wbb):
+    """can a dispatch arm (entry block `entry`, blocks `reg`) be left without an error AND without passing through block wbb?
+    A test written with `||`, an `if let Some(..)` around the call, an early `continue`: whatever lets the arm's effect be skipped for
+    some chunk contents.  Error exits (every path on carries an Err) and unreachable blocks do not count."""
+    seen, work = set(), [entry]
+    while work:
+        x = work.pop()
+        if x in seen or x == wbb or pf.blocks[x]['cleanup']:
+            continue
+        seen.add(x)
+        tx = pf.blocks[x]['term']
+        if tx and tx['k'] == 'unreachable':
+            continue
+        if x not in reg:
+            return True
+        for y in pf.cfg.succ[x]:
+            if pf.blocks[y]['cleanup'] or y in seen:
+                continue
+            if y != wbb and q.arm_always_err(pf, y):
+                continue
+            work.append(y)
+    return False
